@@ -102,6 +102,8 @@ const CTX_FORMS: &[&str] = &[
     "holes-pipe", "holes-paren", "holes-flat", "holes-slice", "holes-filter", "holes-values",
     // the array being sliced is built by a multi-select (on a null current node that is null, not a list)
     "ml", "ml-pipe", "ml-null", "ml-null-pipe",
+    // a function applied directly to the slice; the same bounds sliced twice in one search with steps of opposite sign
+    "fn-reverse", "fn-reverse-bar", "fn-sort", "pair", "pair-first", "pair-three",
 ];
 
 /// Element i of the "falsy" documents: every falsy JSON value, zero, and two truthy ones;
@@ -175,6 +177,12 @@ fn one_ctx(rep: &mut Report, rec: &mut Rec, form: &str, len: usize, a: Option<i6
                 _ => (json!({"some": 1}), format!("nope | [{}] | {}", members, sl)),
             }
         }
+        "fn-reverse" => (ints, format!("reverse(@{})", sl)),
+        "fn-reverse-bar" => (json!({"foo": {"bar": ints}}), format!("reverse(foo.bar{})", sl)),
+        "fn-sort" => (ints, format!("sort(@{})", sl)),
+        "pair" => (ints, format!("[@[{}:{}:{}], @{}] | [1]", f(a), f(b), -step.signum(), sl)),
+        "pair-first" => (ints, format!("[@{}, @[{}:{}:{}]] | [0]", sl, f(a), f(b), -step.signum())),
+        "pair-three" => (ints, format!("[@[{}:{}:{}], @[{}:{}], @{}, @[{}:{}:{}]] | [2]", f(a), f(b), -step.signum(), f(a), f(b), sl, f(a), f(b), if step > 0 { if step == 2 { 3 } else { 2 } } else if step == -2 { -3 } else { -2 })),
         _ => (ints, format!("@{} | @[::-1] | @[::-1]", sl)),
     };
     let got = match guarded(|| jmespath::compile(&text).and_then(|e| e.search(rcvar_of(&doc)))) {
@@ -201,6 +209,12 @@ fn one_ctx(rep: &mut Report, rec: &mut Rec, form: &str, len: usize, a: Option<i6
         slice_indices(len as i128, a.map(|x| x as i128), b.map(|x| x as i128), step as i128)
     };
     let want = match form {
+        "fn-reverse" | "fn-reverse-bar" => format!("[{}]", idx.iter().rev().map(|i| i.to_string()).collect::<Vec<_>>().join(",")),
+        "fn-sort" => {
+            let mut v: Vec<i128> = idx.iter().map(|i| *i as i128).collect();
+            v.sort();
+            format!("[{}]", v.iter().map(|i| i.to_string()).collect::<Vec<_>>().join(","))
+        }
         "ml-null" | "ml-null-pipe" => "N".to_string(),
         "ml" | "ml-pipe" if len == 0 => format!("[{}]", idx.iter().map(|_| "0".to_string()).collect::<Vec<_>>().join(",")),
         h if h.starts_with("holes-") || h == "ml" || h == "ml-pipe" => format!("[{}]", idx.iter().map(|i| kept[*i as usize].to_string()).collect::<Vec<_>>().join(",")),
